@@ -241,18 +241,38 @@ def run(ctx: Ctx):
 
     # ---- R05.d the dt symbol is the formal argument -----------------------------
     ctx.rule("R05.d", "the time-step symbol printed in the body has the name of the formal time-step argument in every backend", floor=3)
-    dts = [c for c in find_calls(cg.node, "Symbol") if c.args and const_str(c.args[0]) is not None]
-    dtname = const_str(dts[0].args[0]) if dts else None
-    # it must be the value bound to the builder's second positional argument
-    bcall = [c for c in ast.walk(cg.node) if isinstance(c, ast.Call) and isinstance(c.func, ast.Name) and c.func.id == fparam]
-    second = bcall[0].args[1] if bcall and len(bcall[0].args) > 1 else None
-    ctx.check(dtname is not None and isinstance(second, ast.Name), "R05.d", cg.key("dt-symbol"), f"builder receives Symbol('{dtname}') as dt", "CodeGenerator.scheme does not pass a Symbol as the builder's dt argument", cg.where())
+    from sa import av as _avd
+
+    from . import util as _ud
+
+    sv = _ud.value_of(ctx, cg)
+    bcalls = [c for c in _avd.find_all(sv, "call") if c[1] == fparam]
+    dtname = None
+    if bcalls and len(bcalls[0][2]) > 1:
+        second = bcalls[0][2][1]
+        if second[0] == "call" and second[1] == "sympy.Symbol" and second[2] and second[2][0][0] == "c":
+            dtname = second[2][0][1]
+    if not bcalls and _avd.has_unk(sv):
+        ctx.undecided("R05.d", cg.key("dt-symbol"), "how CodeGenerator.scheme calls the builder is not understood", cg.where())
+    else:
+        ctx.check(dtname is not None, "R05.d", cg.key("dt-symbol"), f"builder receives Symbol('{dtname}') as dt", f"CodeGenerator.scheme does not pass a sympy.Symbol as the builder's dt argument (it passes {_avd.show(bcalls[0][2][1])[:60] if bcalls and len(bcalls[0][2]) > 1 else None})", cg.where())
+    from .c04 import func_tuple as _ft
+
     for short, qn in (("codegen/python.py", "PythonCodeGenerator._scheme_arguments"), ("codegen/c.py", "CCodeGenerator._scheme_arguments")):
         f = sm.func(short, qn)
-        d = [n for n in ast.walk(f.node) if isinstance(n, ast.Dict)][0]
-        entries = {const_str(k): v for k, v in zip(d.keys, d.values)}
-        dv = const_str(entries.get("d")) or ""
-        ctx.check(dv.split()[-1:] == [dtname], "R05.d", f.key("d-formal"), f"formal for 'd' is '{dv}'", f"{qn}: the formal for 'd' is {dv!r} but the body uses the symbol {dtname!r}", f.where())
+        kw, v = _ft(ctx, f)
+        ents = {}
+        if kw and kw.get("arguments") is not None:
+            for cp in _avd.find_all(kw["arguments"], "comp"):
+                for it in cp[3]:
+                    if it[0] == "sub" and it[1][0] == "dict":
+                        ents = {k[1]: x for k, x in it[1][1] if k[0] == "c"}
+        dv_ = ents.get("d")
+        if dv_ is None or not _avd._is_str(dv_):
+            ctx.undecided("R05.d", f.key("d-formal"), f"the formal for 'd' is not understood ({_avd.show(v)[:80]})", f.where())
+            continue
+        dv = _avd.flatten(dv_)
+        ctx.check(dtname is None or dv.split()[-1:] == [dtname], "R05.d", f.key("d-formal"), f"formal for 'd' is '{dv}'", f"{qn}: the formal for 'd' is {dv!r} but the body uses the symbol {dtname!r}", f.where())
 
     # ---- R05.e / R05.f slots and argument order ----------------------------------------------------
     ctx.rule("R05.e", "the step for state X is stored at state_index(X) (STATE slot family)", floor=6)
